@@ -153,7 +153,7 @@ func c13Letters(mode string) map[string]httpReq {
 	var v1, v2 map[string]any
 	if mode == "insertion" {
 		vb := validInsBatches(c13D, c13B)
-		v1, v2 = insDoc(&vb[0]), insDoc(&vb[1])
+		v1, v2 = insDoc(&vb[0]), insDoc(&vb[2]) // different tree states: the sibling paths (and everything derived from them) differ
 	} else {
 		vb := validDelBatches(c13D, c13B)
 		v1, v2 = delDoc(&vb[0]), delDoc(&vb[2])
@@ -164,8 +164,10 @@ func c13Letters(mode string) map[string]httpReq {
 	wd["identityCommitments"] = []any{"0x1", "0x2"}
 	nn := cloneDoc(v2)
 	nn["preRoot"] = "zz"
+	unsat2 := cloneDoc(v2)
+	unsat2["postRoot"] = "0x5"
 	return map[string]httpReq{
-		"valid1": {"POST", mustJSON(v1), "valid1"}, "valid2": {"POST", mustJSON(v2), "valid2"}, "unsat": {"POST", mustJSON(unsat), "unsat"},
+		"valid1": {"POST", mustJSON(v1), "valid1"}, "valid2": {"POST", mustJSON(v2), "valid2"}, "unsat": {"POST", mustJSON(unsat), "unsat"}, "unsat2": {"POST", mustJSON(unsat2), "unsat2"},
 		"wrongdims": {"POST", mustJSON(wd), "wrongdims"}, "nonnumeric": {"POST", mustJSON(nn), "nonnumeric"}, "GET": {"GET", "", "GET"},
 	}
 }
@@ -178,11 +180,13 @@ func c13Body(c *ev.Ctx) {
 		bound   int
 	}
 	var jobs []job
-	pairs := [][]string{{"valid1", "valid2"}, {"valid1", "unsat"}, {"nonnumeric", "valid1"}, {"valid1", "valid1"}, {"unsat", "wrongdims"}, {"wrongdims", "valid2"}}
+	pairs := [][]string{{"valid1", "valid2"}, {"valid1", "unsat2"}, {"unsat2", "valid1"}, {"nonnumeric", "valid1"}, {"valid1", "valid1"}, {"unsat", "wrongdims"}, {"wrongdims", "valid2"}}
 	if quick {
 		// one proof per execution keeps an execution at ~3 core-seconds: the preempted thread
 		// is the valid request in one order and the invalid one in the other
-		jobs = append(jobs, job{"insertion", []string{"valid1", "unsat"}, 1}, job{"deletion", []string{"nonnumeric", "valid1"}, 1}, job{"insertion", []string{"unsat", "valid2"}, 1})
+		// the two requests of a pair differ in every field (different tree states), so any
+		// shared scratch state shows
+		jobs = append(jobs, job{"insertion", []string{"valid1", "unsat2"}, 1}, job{"deletion", []string{"unsat2", "valid1"}, 1})
 	} else {
 		for _, m := range []string{"insertion", "deletion"} {
 			for _, p := range pairs {
@@ -216,7 +220,7 @@ func c13Body(c *ev.Ctx) {
 		}
 		var mu sync.Mutex
 		nfail := 0
-		e := &vsched.Explorer{Bound: jb.bound, Fine: true, UseKeys: false, MaxSteps: 2000000, Workers: workers(), Deadline: c.Deadline, NewRun: c13Run(c, &sc), AfterRun: vhttp.Uninstall,
+		e := &vsched.Explorer{Bound: jb.bound, Fine: true, UseKeys: false, MaxSteps: 2000000, Workers: 1, /* one execution at a time: the code under test may (wrongly) hold package-level state, which parallel executions in one process would share */ Deadline: c.Deadline, NewRun: c13Run(c, &sc), AfterRun: vhttp.Uninstall,
 			// alternatives only between connection (handler) threads: the interleavings of
 			// connection set-up, clients and server start-up/shut-down belong to C14
 			Filter: func(p *vsched.Point, alt int) bool {
